@@ -223,6 +223,12 @@ Definition eval_agg (cf : cfg) (g : graph) (pe : penv) (a : aggop) (distinct : b
       obind (omap (fun r => eval_expr cf g pe r e) rows) (fun vs =>
         let nn := filter (fun v => negb (value_eqb v VNull)) vs in
         let xs := if distinct then dedup_by value_eqb nn else nn in
+        let xs := match a with
+                  | GSum => if cf_sum_distinct cf then xs else nn
+                  | GCollect => if distinct && negb (cf_collect_distinct_entities cf)
+                                then filter (fun v => negb (is_entity v)) xs else xs
+                  | _ => xs
+                  end in
         match a with
         | GCount => Ok (VInt (nat_z (length xs)))
         | GSum => sum_values xs
@@ -486,7 +492,7 @@ Fixpoint check_runs (rs : list table) (pos skip : nat) (o : table) : bool :=
 (* lists inside values sorted, for queries whose collect() order is not determined *)
 Fixpoint norm_value (v : value) : value :=
   match v with
-  | VList l => VList (sort_by (fun a b => match ord_cmp a b with Gt => false | _ => true end) (map norm_value l))
+  | VList l => VList (sort_by (fun a b => match tot_cmp a b with Gt => false | _ => true end) (map norm_value l))
   | _ => v
   end.
 
@@ -541,24 +547,43 @@ Definition ppat_varlen {A} (p : ppat A) : bool :=
 Definition known_varlen (s : squery) : bool :=
   existsb (fun c => match c with CMatch _ ps _ => existsb ppat_varlen ps | _ => false end) (q_clauses s).
 
-(* OPTIONAL MATCH ... WHERE: a predicate that mentions a variable bound before the OPTIONAL
-   MATCH is applied to the incoming rows (or dropped) instead of deciding whether the optional
-   part matched; and the WHERE of a MATCH that follows an OPTIONAL MATCH, when it mentions a
-   variable the OPTIONAL MATCH introduced, is not applied after the null padding *)
-Fixpoint known_optwhere_from (bound optvars : list N) (cs : list clause) : bool :=
+(* the top-level conjuncts of a predicate *)
+Fixpoint conjuncts (e : expr) : list expr :=
+  match e with
+  | EAnd a b => conjuncts a ++ conjuncts b
+  | _ => [e]
+  end.
+
+Definition mentions (vars : list N) (e : expr) : bool := existsb (fun x => memN x vars) (expr_vars e).
+
+(* mentions at least one variable, and only variables from [vars] *)
+Definition only_mentions (vars : list N) (e : expr) : bool :=
+  match expr_vars e with [] => false | xs => forallb (fun x => memN x vars) xs end.
+
+(* OPTIONAL MATCH ... WHERE: a conjunct that mentions a variable bound before the OPTIONAL
+   MATCH, or no variable at all, is applied to the incoming rows (or dropped) instead of
+   deciding whether the optional part matched.  And in the WHERE of a MATCH that follows an OPTIONAL MATCH (no WITH in between), a
+   conjunct that mentions none of that MATCH's own new variables, and either mentions a variable
+   the OPTIONAL MATCH introduced or no variable at all, is not applied after the null padding. *)
+Fixpoint known_optwhere_from (bound optvars : list N) (seen_opt : bool) (cs : list clause) : bool :=
   match cs with
   | [] => false
   | CMatch true ps w :: rest =>
-      opt_exists (fun e => existsb (fun x => memN x bound) (expr_vars e)) w
-      || known_optwhere_from (flat_map ppat_vars ps ++ bound) (flat_map ppat_vars ps ++ optvars) rest
+      let new := filter (fun x => negb (memN x bound)) (flat_map ppat_vars ps) in
+      opt_exists (fun e => existsb (fun c => negb (only_mentions new c)) (conjuncts e)) w
+      || known_optwhere_from (new ++ bound) (new ++ optvars) true rest
   | CMatch false ps w :: rest =>
-      opt_exists (fun e => existsb (fun x => memN x optvars) (expr_vars e)) w
-      || known_optwhere_from (flat_map ppat_vars ps ++ bound) optvars rest
-  | CUnwind _ x :: rest => known_optwhere_from (x :: bound) optvars rest
-  | CWith p _ :: rest => known_optwhere_from (map snd (p_items p)) [] rest
+      let new := filter (fun x => negb (memN x bound)) (flat_map ppat_vars ps) in
+      (seen_opt &&
+       opt_exists (fun e => existsb (fun c => negb (mentions new c)
+                                             && (mentions optvars c || match expr_vars c with [] => true | _ => false end))
+                                    (conjuncts e)) w)
+      || known_optwhere_from (new ++ bound) optvars seen_opt rest
+  | CUnwind _ x :: rest => known_optwhere_from (x :: bound) optvars seen_opt rest
+  | CWith p _ :: rest => known_optwhere_from (map snd (p_items p)) [] false rest
   end.
 
-Definition known_optwhere (s : squery) : bool := known_optwhere_from [] [] (q_clauses s).
+Definition known_optwhere (s : squery) : bool := known_optwhere_from [] [] false (q_clauses s).
 
 Definition Known_syntactic (q : query) : bool :=
   existsb (fun s => known_varlen s || known_optwhere s) (q_parts q).
